@@ -373,6 +373,7 @@ fn worker_main(args: &[String]) {
                     match w {
                         "export" => post.export = true,
                         "export1" => post.export1 = true,
+                        "light" => post.light = true,
                         "common" => post.common = true,
                         "json" => json = true,
                         _ => {}
